@@ -473,7 +473,7 @@ fn install_panic_hook() {
 /// is merely inconclusive (exit code 4).
 fn install_watchdog() {
     use std::sync::atomic::Ordering;
-    let secs: u64 = std::env::var("FCV_WATCHDOG_S").ok().and_then(|s| s.parse().ok()).unwrap_or(30);
+    let secs: u64 = std::env::var("FCV_WATCHDOG_S").ok().and_then(|s| s.parse().ok()).unwrap_or(20);
     std::thread::spawn(move || {
         let mut last = child::PROGRESS.load(Ordering::Relaxed);
         let mut still = 0u64;
